@@ -73,7 +73,7 @@ Proof.
         rewrite (K (with_exp st x)) end.
       reflexivity.
     + reflexivity.
-  - apply keeps_bind; [apply keeps_lift|]. intro mx. apply keeps_bind; [apply keeps_lift|]. intro tg.
+  - apply keeps_bind; [apply keeps_lift|]. intro tg.
     apply keeps_bind; [apply keeps_lift | intro; apply keeps_on_src].
   - apply keeps_bind; [apply keeps_dsge_read|]. intro v. apply keeps_bind; [apply keeps_lift|]. intro l.
     destruct l; [apply keeps_fail|]. destruct (znth _ _); [apply keeps_ret | apply keeps_fail].
